@@ -373,7 +373,7 @@ MORE10 = {
     'C12': 'R12.18 memoised results are not modified; R12.19 no class-body container grown through self; R12.20 no id() keys.',
     'C14': 'R14.22 star_path tabulated (keys of the differ / ignore tables).',
     'C13': 'R13.1 knows third-party in-place normalisers (rejoin_lines, split_lines, strip_transient, upgrade, ...).',
-    'C15': 'R15.13 no array spread into call arguments in the TypeScript patch functions; R15.14 applyDecisions compares paths element-wise.',
+    'C15': 'R15.13 no array spread into call arguments in the TypeScript patch functions; R15.14 applyDecisions compares paths element-wise; R15.15 stringified keys are JSON-escaped; R15.16 the object iterator ends on undefined, not on a falsy key; R15.17 (known finding) code points vs UTF-16 units; R15.18 (known finding) same-key patches are combined in Python only.',
     'C16': 'R16.24 no fixed element of a split text in the renderers.',
     'C18': 'R18.15 every exit of disable() passed a git-config call.',
     'C19': 'R19.3 follows a one-line wrapper of the search path and rejects modifying a memoised list.',
